@@ -9,6 +9,7 @@ import (
 	"fmt"
 	configv2 "github.com/onosproject/onos-api/go/onos/config/v2"
 	topoapi "github.com/onosproject/onos-api/go/onos/topo"
+	controllerutils "github.com/onosproject/onos-config/pkg/controller/utils"
 	"github.com/onosproject/onos-config/pkg/pluginregistry"
 	"github.com/onosproject/onos-config/pkg/southbound/gnmi"
 	"github.com/onosproject/onos-config/pkg/store/topo"
@@ -20,7 +21,6 @@ import (
 	"github.com/openconfig/gnmi/proto/gnmi_ext"
 	"google.golang.org/grpc/codes"
 	"google.golang.org/grpc/status"
-	"strings"
 	"time"
 
 	transactionstore "github.com/onosproject/onos-config/pkg/store/v3/transaction"
@@ -1104,7 +1104,7 @@ func addDeleteChildren(index configapi.Index, changeValues map[string]configapi.
 		// if this pathValue has to be deleted, then we need to search for all children of this pathValue
 		if changeValue.Deleted {
 			for _, value := range configStore {
-				if strings.HasPrefix(value.Path, changeValue.Path) && !strings.EqualFold(value.Path, changeValue.Path) {
+				if controllerutils.IsChildPath(value.Path, changeValue.Path) {
 					value.Index = index
 					value.Deleted = true
 					updChangeValues[value.Path] = value
